@@ -352,6 +352,29 @@ def _traced_init(self, *a, **kw):
     self._call_queue.running_work_items = run
 
 
+# ---------------------------------------------------------------------- message tags (for trace validation)
+_orig_dumps = lq.dumps
+
+
+def _describe(obj):
+    if isinstance(obj, pe._CallItem):
+        return ("C", obj.work_id)
+    if obj is None:
+        return ("S",)
+    if isinstance(obj, pe._ResultItem):
+        return ("R", obj.work_id)
+    if isinstance(obj, int):
+        return ("P", obj)
+    return ("O",)
+
+
+def _traced_dumps(obj, reducers=None, protocol=None):
+    a = k().cur_actor() if k() is not None else None
+    if a is not None:
+        a.send_tag = _describe(obj)
+    return _orig_dumps(obj, reducers=reducers, protocol=protocol)
+
+
 # ---------------------------------------------------------------------- installation
 _installed = False
 
@@ -371,6 +394,7 @@ def install():
     mpq.threading = sim_threading_q
     mpq.time = types.SimpleNamespace(monotonic=sim_time, time=sim_time)
     lq.threading = sim_threading_q
+    lq.dumps = _traced_dumps
     # executor
     pe.mp = types.SimpleNamespace(Pipe=sim_pipe, util=real_mp.util)
     pe.wait = K.sim_wait
